@@ -127,8 +127,8 @@ def reference(lines: list[str], initial: dict):
             stack.pop()
         elif kind == "define" and cur_active:
             parts = rest.split(None, 1)
-            if parts[0] not in table:  # fortls keeps the first definition; redefinition is outside the generator
-                table[parts[0]] = parts[1] if len(parts) > 1 else "True"
+            # a redefinition replaces the macro (a C preprocessor warns and uses the new body)
+            table[parts[0]] = parts[1] if len(parts) > 1 else "True"
         elif kind == "undef" and cur_active:
             table.pop(rest, None)
     return out, table
@@ -335,4 +335,20 @@ def substitution_compare():
         ["#define FS(p) print *, 'p is', p", "print *, 'p is', w"])
     for name, val in (("A+B", "7"), ("N", 3), ("X.Y", "z")):
         run("configured_names", [f"k = {name}"], None, {name: val})
+    # calls: several per line, nested parentheses, argument order, arity, redefinition
+    d = "#define F(a,b) a-b"
+    for call, want in (("x = F(1,2) + F(3,4)", "x = 1-2 + 3-4"), ("y = F(g(1,2),3)", "y = g(1,2)-3"), ("z = F(b,a)", "z = b-a"),
+                       ("w = F(1)", "w = F(1)"), ("v = F (s, t)*F(F(1,2),3)", None), ("u = F(h(1,(2,3)), k(4))", "u = h(1,(2,3))- k(4)")):
+        if want is not None:
+            run("function_like_calls", [d, call], [d, want])
+    run("function_like_calls", ["#define E() 42", "q = E() + E()"], ["#define E() 42", "q = 42 + 42"])
+    run("redefinition", ["#define F(x) x+1", "a = F(2)", "#undef F", "#define F(x) x*9", "b = F(2)"],
+        ["#define F(x) x+1", "a = 2+1", "#undef F", "#define F(x) x*9", "b = 2*9"])
+    run("redefinition", ["#define N 1", "i = N", "#define N 2", "j = N"], ["#define N 1", "i = 1", "#define N 2", "j = 2"])
+    run("redefinition", ["#define F(x) x+1", "#define F(x) x-1", "c = F(5)"], ["#define F(x) x+1", "#define F(x) x-1", "c = 5-1"])
+    run("redefinition", ["#define F(x) x+1", "c = F(5)", "#define F(x) x-1", "d = F(5)"], ["#define F(x) x+1", "c = 5+1", "#define F(x) x-1", "d = 5-1"])
+    run("redefinition", ["#define N 1", "#undef N", "k = N"], ["#define N 1", "#undef N", "k = N"])
+    # known findings of the pinned tree (kept separate so that each is identified by its own obligation)
+    run("rescan_of_expansion", ["#define B 2", "#define A B", "x = A"], ["#define B 2", "#define A B", "x = 2"])
+    run("object_like_in_character_literal", ["#define N 5", "print *, 'N is', N"], ["#define N 5", "print *, 'N is', 5"])
     return res
